@@ -636,3 +636,4 @@ Proof.
   - apply inv_init.
   - eapply inv_step; eassumption.
 Qed.
+
